@@ -33,8 +33,8 @@ MANIFEST = {
 PLAN = {
     # tier: (mc configs [(cfg, timeout, share of the cores)], tlc scenarios, generated scenarios, done-race trees, stall deadline s)
     "quick": ([("MC_Supervisor_live_quick.cfg", 600, 0.4), ("MC_Supervisor_safety_quick.cfg", 600, 0.6)], 12, 28, 40, 12),
-    "thorough": ([("MC_Supervisor_live_thorough.cfg", 2400, 0.2), ("MC_Supervisor_safety4_thorough.cfg", 2400, 0.25),
-                  ("MC_Supervisor_safety5_thorough.cfg", 3600, 0.55)], 150, 450, 80, 15),
+    "thorough": ([("MC_Supervisor_live_thorough.cfg", 2400, 0.15), ("MC_Supervisor_safety4_thorough.cfg", 2400, 0.2),
+                  ("MC_Supervisor_safety5_thorough.cfg", 3600, 0.65)], 150, 450, 80, 15),
 }
 
 ASSUME = [
